@@ -1115,6 +1115,49 @@ func (c *Ctx) checkFoundIffNonNil() {
 			})
 			r.Check(len(bad) == 0, "M11", key, c.P.Pos(iff.Cond.Pos()), "not-found exactly when the search result is nil", uniqJoin(bad))
 		}
+		// every return that hands out the result of a repository search function with a nil error lies on the non-nil edge of
+		// a test of that result (a deleted or bypassed test answers (nil, nil) for a name that is not there)
+		for _, ret := range core.Returns(fn) {
+			rr := core.ResolvedResults(ret)
+			if !core.IsNilConst(rr[errIdx]) {
+				continue
+			}
+			v := rr[0]
+			for i := 0; i < 3; i++ {
+				switch y := v.(type) {
+				case *ssa.MakeInterface:
+					v = y.X
+				case *ssa.ChangeInterface:
+					v = y.X
+				}
+			}
+			var src *ssa.Call
+			switch y := v.(type) {
+			case *ssa.Call:
+				src = y
+			case *ssa.Extract:
+				src, _ = y.Tuple.(*ssa.Call)
+			}
+			if src == nil || src.Call.StaticCallee() == nil || !nilable(v.Type()) {
+				continue
+			}
+			if _, isRepo := c.P.PkgOf(src.Call.StaticCallee()); !isRepo {
+				continue
+			}
+			if core.ErrResultIndex(src.Call.Signature()) >= 0 {
+				continue // (value, error) results are judged by the error
+			}
+			ord++
+			n++
+			guarded := core.GuardedBy(ret.Block(), func(cond ssa.Value) (bool, bool) {
+				x, trueMeansNil, ok := core.NilCmp(cond)
+				if !ok || x != v {
+					return false, false
+				}
+				return !trueMeansNil, true
+			})
+			r.Check(guarded, "M11", fmt.Sprintf("%s/result-returned-when-found#%d", core.FuncName(fn), ord), c.P.Pos(ret.Pos()), "the search result is returned only where it was tested non-nil", "the search result is returned with a nil error without having been tested: a name that is not there answers (nil, nil) instead of not-found")
+		}
 	}
 	r.Floor("M11", n, 2)
 }
